@@ -408,6 +408,172 @@ func c13ScriptExpiry(r *vrep.Report, rng *rand.Rand) {
 	}
 }
 
+// ---------------------------------------------------------------- scripted: a validator's context ends while the shared fetch is outstanding
+
+// c13ScriptValidateCancel: k>=2 callers validate timestamps above the cached
+// one while PD's answer to the (shared, single-flight) fetch is held; the
+// context of the first caller / of a seeded subset is cancelled or runs into
+// its deadline while the answer is outstanding; then PD answers.  Verdict: a
+// caller whose *own* context is alive is judged exactly as everywhere else (a
+// ts PD issued before its call must be accepted, a ts beyond the issued
+// frontier must be rejected); a caller whose context ended may fail or not.
+func c13ScriptValidateCancel(r *vrep.Report, rng *rand.Rand, idx int) {
+	k := 2 + rng.Intn(5)
+	who := []string{"first", "first", "subset", "subset", "all-but-last"}[rng.Intn(5)]
+	how := []string{"cancel", "cancel", "deadline"}[rng.Intn(3)]
+	late := []int{0, 0, 100}[rng.Intn(3)]
+	fp := []string{"", "", "sleep(1)"}[rng.Intn(3)]
+	desc := map[string]any{"scenario": "validate-cancel", "validators": k, "ended": who, "how": how, "alloc_late_pct": late, "failpoint": fp, "index": idx}
+	env, err := c13NewEnv(r, fmt.Sprintf("vcancel-%d", idx), 2*time.Second, false)
+	if err != nil {
+		r.Inconc("NewPdOracle: %v", err)
+		return
+	}
+	defer env.close()
+	env.pd.SetPolicy(vtso.Policy{Hold: -1, AllocLatePct: late, StepPct: 20, StepMaxMs: 3})
+	if fp != "" {
+		if err := failpoint.Enable(c13FPValidation, fp); err != nil {
+			r.Inconc("failpoint.Enable: %v", err)
+			return
+		}
+		defer failpoint.Disable(c13FPValidation)
+	}
+	ends := make([]bool, k)
+	switch who {
+	case "first":
+		ends[0] = true
+	case "subset":
+		for i := range ends {
+			ends[i] = rng.Intn(2) == 0
+		}
+	default:
+		for i := 0; i < k-1; i++ {
+			ends[i] = true
+		}
+	}
+	type vcase struct {
+		ts     uint64
+		class  string
+		stale  bool
+		issued bool
+		ctx    context.Context
+		cancel context.CancelFunc
+	}
+	cases := make([]vcase, k)
+	out := make(chan c13VRes, k)
+	launch := func(i int) {
+		vc := cases[i]
+		go func() {
+			inv := env.seq.Add(1)
+			err := env.o.ValidateReadTS(vc.ctx, vc.ts, vc.stale, &oracle.Option{TxnScope: oracle.GlobalTxnScope})
+			ret := env.seq.Add(1)
+			out <- c13VRes{i, err, inv, ret, env.pd.MaxIssued()}
+		}()
+	}
+	for i := 0; i < k; i++ {
+		vc := vcase{stale: rng.Intn(2) == 0}
+		if i == 0 || rng.Intn(5) != 0 {
+			vc.ts, vc.class, vc.issued = env.pd.Issue(), "issued-fresh-by-other-client", true
+		} else {
+			vc.ts, vc.class = oracle.ComposeTS(vtso.Physical(env.pd.MaxIssued())+60_000, 7), "far-future"
+		}
+		vc.ctx, vc.cancel = context.WithCancel(context.Background())
+		if ends[i] && how == "deadline" {
+			vc.cancel()
+			// the deadline is armed below, once every caller is waiting
+			vc.ctx, vc.cancel = nil, nil
+		}
+		cases[i] = vc
+	}
+	// deadline contexts must exist before the call; a generous deadline that the
+	// driver waits for while PD's answer is held
+	for i := range cases {
+		if cases[i].ctx == nil {
+			cases[i].ctx, cases[i].cancel = context.WithTimeout(context.Background(), 3*time.Millisecond)
+		}
+	}
+	defer func() {
+		for _, vc := range cases {
+			vc.cancel()
+		}
+	}()
+	launch(0)
+	if !env.pd.WaitPending(1, 20*time.Second) {
+		if cases[0].ctx.Err() == nil {
+			r.Inconc("validate-cancel: the first validator's fetch did not reach the scripted PD")
+		}
+		env.pd.Drain()
+		return
+	}
+	for i := 1; i < k; i++ {
+		launch(i)
+	}
+	// scheduling aid: let the others join the single flight
+	for i := 0; i < 100; i++ {
+		runtime.Gosched()
+	}
+	time.Sleep(400 * time.Microsecond)
+	// PD's answer is still outstanding: end the chosen contexts
+	for i, vc := range cases {
+		if !ends[i] {
+			continue
+		}
+		if how == "cancel" {
+			vc.cancel()
+		} else {
+			<-vc.ctx.Done()
+		}
+	}
+	for i := 0; i < 50; i++ {
+		runtime.Gosched()
+	}
+	time.Sleep(200 * time.Microsecond)
+	// now PD answers everything, at once from here on
+	env.pd.SetPolicy(vtso.Policy{Hold: 0, AllocLatePct: late, StepPct: 20, StepMaxMs: 3})
+	res := make([]c13VRes, 0, k)
+	for len(res) < k {
+		select {
+		case x := <-out:
+			res = append(res, x)
+		case <-time.After(60 * time.Second):
+			r.Inconc("validate-cancel: %d of %d validators returned", len(res), k)
+			env.pd.Drain()
+			return
+		}
+	}
+	alive := 0
+	var rows []map[string]any
+	for _, x := range res {
+		vc := cases[x.i]
+		rows = append(rows, map[string]any{"caller": x.i, "readTS": vc.ts, "class": vc.class, "stale": vc.stale, "ctx_ended": ends[x.i], "inv": x.inv, "ret": x.ret, "error": fmt.Sprint(x.err)})
+	}
+	desc["validators_detail"] = rows
+	for _, x := range res {
+		vc := cases[x.i]
+		if ends[x.i] {
+			if x.err == nil {
+				r.Count("validate_ctx_ended_caller_still_accepted", 1)
+			} else {
+				r.Count("validate_ctx_ended_caller_failed", 1)
+			}
+			continue
+		}
+		alive++
+		c13JudgeValidate(r, vc.ts, vc.class, vc.stale, oracle.GlobalTxnScope, vc.issued, x.err, x.maxAfter, x.inv, x.ret, desc)
+	}
+	if alive > 0 && alive < k {
+		r.Count("validate_alive_callers_next_to_ended_ctx", alive)
+		if ends[0] {
+			r.Count("validate_alive_callers_after_starter_ctx_ended", alive)
+		}
+	}
+	r.Count("validate_cancel_scenarios", 1)
+	r.Distinct(fmt.Sprintf("vcx|%d|%s|%s|%d|%s|%v", k, who, how, late, fp, ends))
+	if idx < 2 {
+		r.Sample(map[string]any{"scenario": desc})
+	}
+}
+
 // ---------------------------------------------------------------- scripted: validation at the exact frontier
 
 // c13ScriptValidateFrontier: one caller, PD answers at once and only moves by
@@ -457,6 +623,9 @@ type c13Phase struct {
 	Failpoint string        `json:"failpoint"`
 	ErrPct    int           `json:"pd_err_pct"`
 	Control   bool          `json:"control_thread"`
+	// percentage of ValidateReadTS calls made with a context that runs into a
+	// very short deadline (the others use context.Background())
+	CancelPct int `json:"validate_short_deadline_pct"`
 }
 
 func c13GenPhase(rng *rand.Rand, idx int) c13Phase {
@@ -476,6 +645,13 @@ func c13GenPhase(rng *rand.Rand, idx int) c13Phase {
 		p.ErrPct = 10
 	}
 	p.Control = rng.Intn(4) != 0
+	if idx%3 == 1 && p.ErrPct == 0 {
+		// derived from the index, so the other phases are the same as before
+		p.CancelPct = 30
+		if p.Hold < 2 {
+			p.Hold = 2 // PD's answers must be outstanding for a while
+		}
+	}
 	return p
 }
 
@@ -508,7 +684,7 @@ func c13RunPhase(r *vrep.Report, p c13Phase) {
 	var wg sync.WaitGroup
 	stop := make(chan struct{})
 	for i := range callers {
-		callers[i] = &c13Caller{id: i, r: r, seq: env.seq, o: env.o, pd: env.pd, kind: "pd", mix: mix,
+		callers[i] = &c13Caller{id: i, r: r, seq: env.seq, o: env.o, pd: env.pd, kind: "pd", mix: mix, cancelPct: p.CancelPct,
 			rng: vrep.Rand(fmt.Sprintf("c13-%s-caller-%d", stream, i))}
 		wg.Add(1)
 		go func(c *c13Caller) {
@@ -581,7 +757,8 @@ func TestVerifC13PD(t *testing.T) {
 		"Clauses: (a) GetTimestamp/GetTimestampAsync.Wait: A returned before B invoked => ts(A)<ts(B) (event sequencer, no clock); "+
 		"(b) low-resolution ts per scope never decreases in real-time order and is <= the largest ts the PD has issued, read after the call returned; "+
 		"(c) expiry sandwich u1=UntilExpired,e=IsExpired,u2=UntilExpired: e => u2<=0, !e => u1>0; "+
-		"(e) ValidateReadTS (validation enabled, normal and stale reads): a ts the PD issued before the call was invoked must be accepted, a ts above the largest issued ts read after return must be rejected (MaxUint64 non-stale = 'latest' sentinel: open). "+
+		"(e) ValidateReadTS (validation enabled, normal and stale reads): a ts the PD issued before the call was invoked must be accepted, a ts above the largest issued ts read after return must be rejected (MaxUint64 non-stale = 'latest' sentinel: open); "+
+		"also while other callers sharing the same single-flight fetch have their context cancelled / run into their deadline with PD's answer outstanding (the scripted PD honours the request context): only a caller whose own context ended is exempt. "+
 		"distinct = scripted release permutations (non-identity), single-flight scenario shapes (failpoint, allocation mode, validators, PD fetches), stress phase configurations, expiry cases with |remaining|<=1ms or the clock moving inside the sandwich, validation observation classes (ts class, stale, scope, verdict, fetched from PD, PD issued during the call)")
 	defer r.Finish(t)
 	c13Quiet()
@@ -619,6 +796,11 @@ func TestVerifC13PD(t *testing.T) {
 	c13ScriptExpiry(r, rng)
 	c13ScriptValidateFrontier(r, rng)
 	r.Flush()
+	crng := vrep.Rand("c13-pd-cancel")
+	for i := 0; i < vrep.Pick(250, 2500); i++ {
+		c13ScriptValidateCancel(r, crng, i)
+	}
+	r.Flush()
 	prng := vrep.Rand("c13-pd-phases")
 	for i := 0; i < vrep.Pick(70, 700); i++ {
 		c13RunPhase(r, c13GenPhase(prng, i))
@@ -635,4 +817,6 @@ func TestVerifC13PD(t *testing.T) {
 	r.Floor("lowres_events", 1000)
 	r.Floor("ts_realtime_ordered_pairs", 10000)
 	r.Floor("interval_changes", 20)
+	r.Floor("validate_alive_callers_after_starter_ctx_ended", 100)
+	r.Floor("validate_stress_calls_with_short_deadline", 100)
 }
